@@ -1,3 +1,490 @@
+// check.go: the per-property check driver — cone selection by tag, known findings, ledger, replay files, evidence.
 package main
 
-func cmdCheck(args []string) int { return 2 }
+import (
+	"encoding/json"
+	"flag"
+	"fmt"
+	"os"
+	"path/filepath"
+	"sort"
+	"strconv"
+	"strings"
+	"time"
+)
+
+type PropConfig struct {
+	Packages  []string `json:"packages"`
+	Undecided []string `json:"undecided_clauses"`
+	Note      string   `json:"note"`
+}
+
+type Finding struct {
+	Kind     string // "finding" or "fixed"
+	Property string
+	Key      string
+	Text     string
+}
+
+func loadFindings(path string) []Finding {
+	var out []Finding
+	data, err := os.ReadFile(path)
+	if err != nil {
+		return nil
+	}
+	for _, ln := range strings.Split(string(data), "\n") {
+		ln = strings.TrimSpace(ln)
+		if ln == "" || strings.HasPrefix(ln, "#") {
+			continue
+		}
+		f := Finding{}
+		switch {
+		case strings.HasPrefix(ln, "finding:"):
+			f.Kind = "finding"
+			ln = strings.TrimSpace(ln[len("finding:"):])
+		case strings.HasPrefix(ln, "fixed:"):
+			f.Kind = "fixed"
+			ln = strings.TrimSpace(ln[len("fixed:"):])
+		default:
+			continue
+		}
+		// property=<id> key=<obligation key> :: text
+		parts := strings.SplitN(ln, "::", 2)
+		if len(parts) == 2 {
+			f.Text = strings.TrimSpace(parts[1])
+		}
+		head := parts[0]
+		if i := strings.Index(head, "property="); i >= 0 {
+			f.Property = strings.Fields(head[i+9:])[0]
+		}
+		if i := strings.Index(head, "key="); i >= 0 {
+			f.Key = strings.TrimSpace(head[i+4:])
+		}
+		out = append(out, f)
+	}
+	return out
+}
+
+type keyStatus struct {
+	Key       string
+	Kind      string
+	Tags      []string
+	Func      string
+	Instances int
+	Failed    []int // indexes into rr.Results
+	Desc      string
+	Millis    int64
+}
+
+func cmdCheck(args []string) int {
+	fs := flag.NewFlagSet("check", flag.ExitOnError)
+	repo := fs.String("repo", "/repo", "repository root")
+	verif := fs.String("verif", "/verif", "verif directory")
+	prop := fs.String("property", "", "property id")
+	tier := fs.String("tier", "quick", "quick|thorough")
+	updateLedger := fs.Bool("update-ledger", false, "rewrite the ledger of discharged obligation keys")
+	mutant := fs.String("mutant", "", "file|old|new  (in-memory overlay; for self-tests)")
+	quiet := fs.Bool("q", false, "less output")
+	fs.Parse(args)
+	if t := os.Getenv("VERIF_TIER"); t != "" && *tier == "" {
+		*tier = t
+	}
+	seed := 0
+	if sd := os.Getenv("VERIF_SEED"); sd != "" {
+		seed, _ = strconv.Atoi(sd)
+	}
+	t0 := time.Now()
+	var props map[string]PropConfig
+	data, err := os.ReadFile(filepath.Join(*verif, "props.json"))
+	if err != nil {
+		fmt.Fprintln(os.Stderr, "props.json:", err)
+		return 2
+	}
+	if err := json.Unmarshal(data, &props); err != nil {
+		fmt.Fprintln(os.Stderr, "props.json:", err)
+		return 2
+	}
+	pc, ok := props[*prop]
+	if !ok {
+		fmt.Fprintln(os.Stderr, "unknown property", *prop)
+		return 2
+	}
+	overlay := map[string][]byte{}
+	if *mutant != "" {
+		parts := strings.SplitN(*mutant, "|", 3)
+		src, err := os.ReadFile(parts[0])
+		if err != nil || !strings.Contains(string(src), parts[1]) {
+			fmt.Fprintln(os.Stderr, "mutant pattern not found")
+			return 2
+		}
+		overlay[parts[0]] = []byte(strings.Replace(string(src), parts[1], parts[2], 1))
+	}
+	replayDir := filepath.Join(*verif, "replays", *prop)
+	os.RemoveAll(replayDir)
+	violations := 0
+	violation := func(name, why string, extra map[string]interface{}, noInput bool) {
+		os.MkdirAll(replayDir, 0o755)
+		path := filepath.Join(replayDir, sanitize(name)+".json")
+		if extra == nil {
+			extra = map[string]interface{}{}
+		}
+		extra["property"] = *prop
+		extra["obligation"] = name
+		extra["what"] = why
+		b, _ := json.MarshalIndent(extra, "", " ")
+		os.WriteFile(path, b, 0o644)
+		suffix := ""
+		if noInput {
+			suffix = " no-failing-input-found"
+		}
+		fmt.Printf("VIOLATION property=%s replay=%s%s\n", *prop, path, suffix)
+		fmt.Printf("  obligation: %s\n  %s\n", name, why)
+		violations++
+	}
+	w, err := loadWorld(*repo, pc.Packages, overlay)
+	if err != nil {
+		// the tree does not load (does not compile with the verif tag): the check cannot decide anything
+		fmt.Fprintln(os.Stderr, "load:", err)
+		violation("load", "the repository does not load with build tag verif: "+err.Error(), nil, true)
+		writeEvidence(*verif, *prop, *tier, seed, nil, nil, nil, time.Since(t0), violations, pc, nil)
+		return 1
+	}
+	if err := w.loadContracts(*verif); err != nil {
+		fmt.Fprintln(os.Stderr, "contracts:", err)
+		return 2
+	}
+	loadSecs := time.Since(t0).Seconds()
+	var roots []*Contract
+	for _, k := range sortedKeys(w.contracts) {
+		c := w.contracts[k]
+		if c.External || c.Interface {
+			continue
+		}
+		if contractHasTag(c, *prop) {
+			roots = append(roots, c)
+		}
+	}
+	var lemmas []*Lemma
+	for _, lm := range w.lemmas {
+		if hasTag(lm.Tags, *prop) {
+			lemmas = append(lemmas, lm)
+		}
+	}
+	timeout := 10
+	noCache := false
+	if *tier == "thorough" {
+		timeout = 60
+		noCache = true
+	}
+	work := filepath.Join(*verif, ".work", *prop)
+	os.MkdirAll(work, 0o755)
+	sv := &Solver{workDir: work, timeout: time.Duration(timeout) * time.Second, cacheDir: filepath.Join(*verif, ".work", "cache"), noCache: noCache}
+	rr := w.verifyCone(roots, lemmas, sv, false)
+
+	// ---- aggregate by key ----
+	keys := map[string]*keyStatus{}
+	var order []string
+	vacuous := []string{}
+	feasible := map[string]int{}
+	paths := map[string]int{}
+	for i := range rr.Results {
+		r := &rr.Results[i]
+		if r.O.Canary {
+			if strings.HasSuffix(r.O.Key, "@exit") {
+				paths[r.O.Func]++
+				if r.R.Status != "unsat" {
+					feasible[r.O.Func]++
+				}
+			} else if r.R.Status == "unsat" {
+				vacuous = append(vacuous, r.O.Key+": "+r.O.Desc)
+			}
+			continue
+		}
+		ks := keys[r.O.Key]
+		if ks == nil {
+			ks = &keyStatus{Key: r.O.Key, Kind: r.O.Kind, Tags: r.O.Tags, Func: r.O.Func, Desc: r.O.Desc}
+			keys[r.O.Key] = ks
+			order = append(order, r.O.Key)
+		}
+		ks.Instances++
+		ks.Millis += r.R.Millis
+		if r.R.Status != "unsat" {
+			ks.Failed = append(ks.Failed, i)
+		}
+	}
+	sort.Strings(order)
+	findings := loadFindings(filepath.Join(*verif, "known_findings.txt"))
+	isKnown := func(key string) *Finding {
+		for i := range findings {
+			f := &findings[i]
+			if f.Kind == "finding" && f.Property == *prop && f.Key == key {
+				return f
+			}
+		}
+		return nil
+	}
+	// ---- structural problems ----
+	for _, m := range w.missing {
+		violation("contract-target-missing", m, nil, true)
+	}
+	for _, fr := range rr.Funcs {
+		for _, er := range fr.Errors {
+			name := shortFunc(fr.Func) + "/undecided"
+			if kf := isKnown(name); kf != nil {
+				fmt.Printf("KNOWN-FINDING: property=%s %s %s\n", *prop, name, kf.Text)
+				continue
+			}
+			violation(name, "the function can no longer be verified (outside the subset / needs contract): "+er, nil, true)
+		}
+		if paths[fr.Func] > 0 && feasible[fr.Func] == 0 {
+			violation(shortFunc(fr.Func)+"/vacuity", "no feasible path reaches an exit of "+shortFunc(fr.Func)+": the proof is vacuous", nil, true)
+		}
+	}
+	for _, v := range vacuous {
+		violation("vacuity/"+v[:strings.Index(v, ":")], "vacuity guard failed (assumptions are contradictory): "+v, nil, true)
+	}
+	// ---- obligations ----
+	nObl, nDis := 0, 0
+	knownHit := map[string]bool{}
+	var knownList []string
+	byBackend := map[string]int{}
+	var solverMs int64
+	type slow struct {
+		Key string
+		Ms  int64
+	}
+	var slowest []slow
+	for i := range rr.Results {
+		r := &rr.Results[i]
+		if r.O.Canary {
+			continue
+		}
+		solverMs += r.R.Millis
+		if r.R.Status == "unsat" {
+			byBackend[r.R.Solver]++
+		}
+		slowest = append(slowest, slow{r.O.Key, r.R.Millis})
+	}
+	sort.Slice(slowest, func(i, j int) bool { return slowest[i].Ms > slowest[j].Ms })
+	if len(slowest) > 5 {
+		slowest = slowest[:5]
+	}
+	for _, k := range order {
+		ks := keys[k]
+		if len(ks.Failed) == 0 {
+			nObl += ks.Instances
+			nDis += ks.Instances
+			continue
+		}
+		if kf := isKnown(k); kf != nil {
+			knownHit[k] = true
+			knownList = append(knownList, k+" :: "+kf.Text)
+			fmt.Printf("KNOWN-FINDING: property=%s %s %s\n", *prop, k, kf.Text)
+			continue
+		}
+		nObl += ks.Instances
+		nDis += ks.Instances - len(ks.Failed)
+		r := &rr.Results[ks.Failed[0]]
+		extra := map[string]interface{}{
+			"function": shortFunc(ks.Func), "kind": ks.Kind, "clause": ks.Desc, "position": r.O.Pos, "path": r.O.Trace,
+			"solver_status": r.R.Status, "solver": r.R.Solver, "failing_instances": len(ks.Failed), "instances": ks.Instances,
+		}
+		os.MkdirAll(replayDir, 0o755)
+		smtPath := filepath.Join(replayDir, sanitize(k)+".smt2")
+		os.WriteFile(smtPath, []byte(r.SMT), 0o644)
+		extra["smt_file"] = smtPath
+		model := ""
+		if r.R.Status == "sat" {
+			model = sv.model(r.SMT, 5)
+			os.WriteFile(filepath.Join(replayDir, sanitize(k)+".model.txt"), []byte(model), 0o644)
+			extra["model_file"] = filepath.Join(replayDir, sanitize(k)+".model.txt")
+		}
+		extra["solver_output"] = firstLines(r.R.Output, 6)
+		inLedger := ledgerHas(*verif, *prop, k)
+		extra["discharged_on_unchanged_tree"] = inLedger
+		rep := tryReplay(w, *verif, *prop, ks, r, model)
+		noInput := true
+		if rep != nil {
+			for kk, vv := range rep {
+				extra[kk] = vv
+			}
+			if c, ok := rep["replay_confirmed"].(bool); ok && c {
+				noInput = false
+			}
+		}
+		violation(k, fmt.Sprintf("%s — not discharged (%s by %s) at %s", ks.Desc, r.R.Status, r.R.Solver, r.O.Pos), extra, noInput)
+	}
+	// stale findings
+	for _, f := range findings {
+		if f.Kind == "finding" && f.Property == *prop && !knownHit[f.Key] {
+			if _, present := keys[f.Key]; present {
+				fmt.Printf("NOTE: known finding no longer fails (stale entry): %s\n", f.Key)
+			} else if !strings.HasSuffix(f.Key, "/undecided") {
+				fmt.Printf("NOTE: known finding's obligation is not generated in this run: %s\n", f.Key)
+			}
+		}
+	}
+	// ledger
+	ledgerPath := filepath.Join(*verif, "ledger", *prop+".txt")
+	if *updateLedger {
+		os.MkdirAll(filepath.Dir(ledgerPath), 0o755)
+		var sb strings.Builder
+		for _, k := range order {
+			if len(keys[k].Failed) == 0 {
+				sb.WriteString(k + "\n")
+			}
+		}
+		os.WriteFile(ledgerPath, []byte(sb.String()), 0o644)
+	} else if data, err := os.ReadFile(ledgerPath); err == nil && *mutant == "" {
+		for _, k := range strings.Split(strings.TrimSpace(string(data)), "\n") {
+			if k == "" {
+				continue
+			}
+			if _, present := keys[k]; !present && !strings.Contains(k, "/safety/") && !strings.Contains(k, "/frame") {
+				violation(k+"/vanished", "an obligation that was discharged on the unchanged tree is no longer generated (the contract clause or the function it covers disappeared): "+k, nil, true)
+			}
+		}
+	}
+	if nObl == 0 && violations == 0 {
+		violation("no-obligations", "the check generated zero obligations", nil, true)
+	}
+	wall := time.Since(t0)
+	writeEvidence(*verif, *prop, *tier, seed, w, rr, keys, wall, violations, pc, map[string]interface{}{
+		"obligations": nObl, "discharged": nDis, "by_backend": byBackend, "solver_time_s": float64(solverMs) / 1000, "slowest": slowest,
+		"known_findings": knownList, "load_s": loadSecs, "order": order,
+	})
+	if !*quiet {
+		fmt.Printf("property %s (%s): %d functions/lemmas in cone, %d obligation instances, %d discharged, %d known findings, %d violations, %.1fs (load %.1fs)\n",
+			*prop, *tier, len(rr.Funcs), nObl, nDis, len(knownList), violations, wall.Seconds(), loadSecs)
+	}
+	if violations > 0 {
+		return 1
+	}
+	return 0
+}
+
+func firstLines(s string, n int) string {
+	ls := strings.Split(s, "\n")
+	if len(ls) > n {
+		ls = ls[:n]
+	}
+	return strings.Join(ls, "\n")
+}
+
+func ledgerHas(verif, prop, key string) bool {
+	data, err := os.ReadFile(filepath.Join(verif, "ledger", prop+".txt"))
+	if err != nil {
+		return false
+	}
+	for _, k := range strings.Split(string(data), "\n") {
+		if k == key {
+			return true
+		}
+	}
+	return false
+}
+
+func writeEvidence(verif, prop, tier string, seed int, w *World, rr *RunResult, keys map[string]*keyStatus, wall time.Duration, violations int, pc PropConfig, cov map[string]interface{}) {
+	if cov == nil {
+		cov = map[string]interface{}{"obligations": 0, "discharged": 0}
+	}
+	order, _ := cov["order"].([]string)
+	delete(cov, "order")
+	cov["checker_cmd"] = fmt.Sprintf("/verif/check %s %s   (govc: go/ssa symbolic execution against //@ contracts; obligations discharged by z3-new 5.1.0 / z3 4.8.12 / cvc5 1.0, first unsat wins)", prop, tier)
+	trusted := []string{
+		"govc itself (SSA-to-SMT translation, heap model, havoc sets, contract parser)",
+		"go/ssa and go/types of golang.org/x/tools v0.29.0 agree with the Go compiler",
+		"the SMT solvers (an obligation counts as discharged when one of three independent solvers answers unsat)",
+		"sequential semantics: no other goroutine touches the objects during a call",
+	}
+	var assumptions []string
+	var fuc []string
+	samples := []interface{}{}
+	if rr != nil {
+		mathInts := []string{}
+		seenA := map[string]bool{}
+		add := func(s string) {
+			if !seenA[s] {
+				seenA[s] = true
+				assumptions = append(assumptions, s)
+			}
+		}
+		for _, fr := range rr.Funcs {
+			c := fr.Contract
+			name := shortFunc(fr.Func)
+			switch {
+			case c != nil && c.Interface:
+				add("interface-method contract assumed for implementations out of reach: " + name)
+			case c != nil && c.External:
+				add("assumed contract of external function (body not read): " + name)
+			case c != nil && c.Trusted:
+				add("trusted contract (body not verified): " + name)
+			default:
+				fuc = append(fuc, fmt.Sprintf("%s (%d paths)", name, fr.Paths))
+				if c != nil && !c.Checked && c.Fn != nil {
+					mathInts = append(mathInts, name)
+				}
+				if c != nil {
+					for _, r := range c.Requires {
+						add("top-level precondition assumed unless a verified caller discharges it: " + name + " requires " + r.Src)
+					}
+					if c.AbstractCalls {
+						add("callees without contract abstracted as unknown calls (result arbitrary, heap havocked, ghost state kept) in " + name)
+					}
+				}
+			}
+			for _, kind := range sortedKeys(fr.Stats) {
+				if kind == "contract" || kind == "inlined" || kind == "callback-contract" {
+					continue
+				}
+				for _, cal := range sortedKeys(fr.Stats[kind]) {
+					add(kind + ": " + shortFunc(cal))
+				}
+			}
+		}
+		if len(mathInts) > 0 {
+			add("machine integers treated as mathematical integers (no overflow obligations; type ranges assumed for inputs and loads) in: " + strings.Join(mathInts, ", "))
+		}
+		sort.Strings(fuc)
+		// samples: a few obligations written out
+		n := 0
+		for _, k := range order {
+			ks := keys[k]
+			if ks == nil || (ks.Kind != "ensures" && ks.Kind != "lemma" && ks.Kind != "assert-at") {
+				continue
+			}
+			st := "discharged"
+			if len(ks.Failed) > 0 {
+				st = "NOT discharged"
+			}
+			samples = append(samples, map[string]interface{}{"obligation": k, "clause": ks.Desc, "instances": ks.Instances, "status": st})
+			n++
+			if n >= 12 {
+				break
+			}
+		}
+	}
+	if len(samples) == 0 {
+		samples = append(samples, "no obligations were generated")
+	}
+	cov["samples"] = samples
+	cov["trusted_base"] = trusted
+	cov["functions_under_contract"] = fuc
+	cov["undecided_clauses"] = pc.Undecided
+	cov["bounded"] = []string{}
+	if w != nil {
+		cov["contract_files"] = w.contractFiles
+	}
+	ev := map[string]interface{}{
+		"property_id": prop, "tier": tier, "seed": seed, "level": "proof", "coverage": cov, "assumptions": assumptions,
+		"wall_s": wall.Seconds(), "violations": violations,
+	}
+	os.MkdirAll(filepath.Join(verif, "evidence"), 0o755)
+	b, _ := json.MarshalIndent(ev, "", " ")
+	os.WriteFile(filepath.Join(verif, "evidence", prop+".json"), b, 0o644)
+}
+
+// tryReplay: concrete replay of a counterexample on the real code, where a replay driver exists for the function
+func tryReplay(w *World, verif, prop string, ks *keyStatus, r *OblResult, model string) map[string]interface{} {
+	return runReplayDriver(w, verif, prop, ks, r, model)
+}
